@@ -515,6 +515,7 @@ fn flood_opts(place_sel: u64, rng: &mut Rng, flood_n: u32) -> (ScenarioOpts, &'s
         script_snippets: 5,
         contract_snippets: 4,
         tight_gas: 0,
+        ..Default::default()
     };
     (o, place)
 }
